@@ -675,7 +675,8 @@ Section ClientProofs.
     intros Hi Hs. unfold blob_read, source_read.
     destruct (src_rest (br_src br)) as [|b0 rest] eqn:Hrest.
     - cbn. repeat split; auto; try apply reach_refl.
-      intros H. destruct (src_fail (br_src br)); [discriminate|]. destruct (negb (br_verify br)); [discriminate|].
+      intros H. destruct (src_fail (br_src br)); [discriminate|].
+      destruct (negb (br_verify br)); [destruct (_ <? _); discriminate|].
       destruct (negb _); [discriminate|]. destruct (beqb _ _); discriminate.
     - unfold src_ok in Hs. destruct (src_idx (br_src br)) as [i|] eqn:Hidx.
       + destruct Hs as (st & Hn & H2). cbn -[firstn skipn].
@@ -777,6 +778,11 @@ Section ClientProofs.
     intros w2 r Hi2 Hr2 _.
     eapply post_bind; [apply post_lift with (Q := fun _ _ => True); auto; apply location_clean|].
     intros w3 loc Hi3 Hr3 _.
+    assert (Hfail : forall e, post nf (10 + 0) w3 (fail Srv (A := desc) e w3) (fun _ _ => True)).
+    { intros e. eapply post_weaken with (k := 0%nat) (Q := fun _ _ => True); [apply post_fail; auto|lia|auto]. }
+    destruct (d_size d <? 0); [apply Hfail|].
+    destruct ((d_size d =? 0) && present && negb (is_empty data)); [apply Hfail|].
+    destruct ((0 <? d_size d) && _); [apply Hfail|].
     eapply post_bind; [apply client_do_spec; auto; apply all_2xx_of; reflexivity|].
     intros w4 r' Hi4 Hr4 _. apply post_ret; auto.
   Qed.
